@@ -307,22 +307,39 @@ def run_check(prop, tier="quick", seed=0, replay=None, jobs=None, cap_s=None, qu
         else:
             new_classes.append(c)
 
-    # determinism: re-execute the unit of each new class once more in this process
+    # determinism: re-execute the unit of each new class in this process (up to 3 times). A class that never
+    # reproduces is dropped (and counted); if NO class of the run reproduces the run is not trusted (exit 2,
+    # no VIOLATION line).  On the unchanged tree everything is deterministic, so a non-reproducing failure
+    # points at non-determinism introduced into the code under test; the reproducing classes are still reported.
     confirmed = []
+    flaky = 0
+    rerun_cache = {}
     for c in new_classes[:40]:
-        rec2 = Rec()
-        try:
-            mod.run_unit(units[c["unit"]], rec2)
-        except Exception:
-            sys.stderr.write("INTERNAL ERROR while re-executing a violating unit:\n" + traceback.format_exc())
-            return 2
-        keys2 = {(v["clause"], tuple(sorted(v["sig"].items()))) for v in rec2.viol}
         key = (c["rep"]["clause"], tuple(sorted(c["rep"]["sig"].items())))
-        if key not in keys2:
-            sys.stderr.write("INTERNAL ERROR: violation did not reproduce on re-execution: %r\n" % (key,))
-            return 2
-        confirmed.append(c)
+        ok = False
+        for attempt in range(3):
+            ck = (c["unit"], attempt)
+            if ck not in rerun_cache:
+                rec2 = Rec()
+                try:
+                    mod.run_unit(units[c["unit"]], rec2)
+                except Exception:
+                    sys.stderr.write("INTERNAL ERROR while re-executing a violating unit:\n" + traceback.format_exc())
+                    return 2
+                rerun_cache[ck] = {(v["clause"], tuple(sorted(v["sig"].items()))) for v in rec2.viol}
+            if key in rerun_cache[ck]:
+                ok = True
+                break
+        if ok:
+            confirmed.append(c)
+        else:
+            flaky += 1
+            sys.stderr.write("NOTE: violation class did not reproduce in 3 re-executions (dropped): %r\n" % (key,))
+    if new_classes and not confirmed:
+        sys.stderr.write("INTERNAL ERROR: none of the %d violation classes reproduced on re-execution\n" % len(new_classes))
+        return 2
     confirmed.extend(new_classes[40:])
+    total.info["non-reproducing-violation-classes"] = flaky
 
     replay_dir = os.environ.get("VERIF_REPLAY_DIR") or os.path.join(VERIF, "replays")
     lines = []
